@@ -153,7 +153,9 @@ class C10(Prop):
     def shards(self, tier, seed):
         if tier == "quick":
             return [["--seed", str(seed), "--n", "15"] for _ in range(NCPU)]
-        return [["--seed", str(seed), "--n", str(max(1, 2000 // NCPU))] for _ in range(NCPU)]
+        procs = [1, 2, 4, 8, 16]
+        return [["--seed", str(seed), "--n", str(max(1, 2000 // NCPU)), "--mode", "p%d" % procs[k % len(procs)]]
+                for k in range(NCPU)]
 
     def search_shards(self, tier, seed, round_no):
         return [["--seed", str(seed + 7919 * (round_no + 1) + k), "--n", "30"] for k in range(NCPU)]
@@ -209,9 +211,20 @@ class C10(Prop):
         eng = case["input"]["cfg"]["engine"]
         known = {e["key"] for e in core.known_findings(self.id)}
         keys = []
+        log = case.get("observed", {}).get("log") or []
+        free = next((i for i, e in enumerate(log) if e["k"] == "phase"), len(log))
+        stop_kind = "graceful"
+        for e in log[:free]:
+            if e["k"] == "ret" and e.get("b") == "nil" and e.get("a") in ("stop", "stopwait", "force"):
+                stop_kind = "force" if e.get("a") == "force" else "graceful"
         for bit, name in RULES:
             if code & (1 << bit):
                 k = "%s/%s" % (eng, name)
+                if bit == 3:
+                    k += "/" + stop_kind
+                if bit == 7 and not any(e["k"] == "call" and e.get("a") in ("stop", "stopwait", "force", "stopall")
+                                        for e in log[:free]):
+                    k = "%s/failure-reported-as-stopped" % eng
                 if bit == 2:
                     kinds = [kn for kb, kn in KINDS if code & (1 << kb)] or ["unknown-cause"]
                     k += "/" + kinds[0]
